@@ -220,6 +220,38 @@ fn space_family<R: Rep>(orders: &'static [usize], pars: usize) -> Space {
     if R::ID == 0 { sp.procs() } else { sp }
 }
 
+/// Every digraph with exactly one arc (and, second variant, additionally the last
+/// off-diagonal arc) at orders beyond exhaustive reach: every cell of the bit matrix
+/// alone in its 64-bit block, every row alone for the list representations.
+fn space_single_arc<R: Rep>(orders: &'static [usize]) -> Space {
+    let mut cases: Vec<(usize, usize, usize)> = Vec::new();
+    for &n in orders {
+        for u in 0..n {
+            for v in 0..n {
+                if u != v {
+                    cases.push((n, u, v));
+                }
+            }
+        }
+    }
+    let cases = Arc::new(cases);
+    let sp = Space::new("c02.single_arc", vec![R::ID, orders.iter().map(|&x| x as u64).sum()], cases.len() as u64 * 2, format!("every one-arc digraph (and one arc + the last off-diagonal arc) at orders {orders:?} in {}, every query", R::NAME), move |idx, ctx| {
+        let (n, u, v) = cases[(idx / 2) as usize];
+        let mut abs = Abs::from_arcs(n, [(u, v)]);
+        if idx % 2 == 1 {
+            abs.a.insert((n - 1, n - 2));
+        }
+        par(1 + (idx % 5) as usize);
+        let d: R = mk::<R>(&abs);
+        check_queries(&d, &abs, &[n], 0, ctx);
+        if (u * n + v) % 64 == 63 || (u * n + v) % 64 == 0 {
+            ctx.nontrivial();
+        }
+        ctx.sample(|| json!({"rep": R::NAME, "digraph": abs.arcs_json(), "queries": "all of C02"}));
+    });
+    if R::ID == 0 { sp.procs() } else { sp }
+}
+
 pub fn build(tier: &str, seed: u64) -> Check {
     let thorough = tier == "thorough";
     let mut spaces = Vec::new();
@@ -242,6 +274,14 @@ pub fn build(tier: &str, seed: u64) -> Check {
     static ORD_Q: [usize; 9] = [8, 9, 11, 15, 16, 17, 31, 33, 40];
     static ORD_T: [usize; 14] = [8, 9, 11, 12, 15, 16, 17, 23, 31, 32, 33, 40, 64, 65];
     let ords: &'static [usize] = if thorough { &ORD_T } else { &ORD_Q };
+    static SA_Q: [usize; 7] = [8, 9, 11, 12, 13, 16, 17];
+    static SA_T: [usize; 14] = [6, 7, 8, 9, 10, 11, 12, 13, 16, 17, 23, 24, 32, 33];
+    let sa: &'static [usize] = if thorough { &SA_T } else { &SA_Q };
+    spaces.push(space_single_arc::<AX>(sa));
+    spaces.push(space_single_arc::<EL>(sa));
+    spaces.push(space_single_arc::<AL>(sa));
+    spaces.push(space_single_arc::<AM>(sa));
+    spaces.push(space_single_arc::<WU>(sa));
     spaces.push(space_family::<AL>(ords, 16));
     spaces.push(space_family::<AX>(ords, 1));
     spaces.push(space_family::<EL>(ords, 1));
